@@ -176,7 +176,19 @@ func (f *Flow) amountAround() string {
 	if lim != nil && g.r.Chance(1, 2) {
 		d := int64(g.r.Intn(3) - 1)
 		g.stats.Mut(fmt.Sprintf("amount-limit%+d", d))
-		return clamp256(new(big.Int).Add(lim, big.NewInt(d))).String()
+		a := new(big.Int).Add(lim, big.NewInt(d))
+		if g.r.Chance(1, 4) {
+			// the same low bits, one or two machine words higher
+			a.Add(a, new(big.Int).Lsh(big.NewInt(1), uint(g.pickInt([]int{64, 64, 128, 192}))))
+			g.stats.Mut("amount-limit-plus-word")
+		}
+		return clamp256(a).String()
+	}
+	if g.r.Chance(1, 12) {
+		a := new(big.Int).Lsh(big.NewInt(int64(1+g.r.Intn(3))), uint(g.pickInt([]int{63, 64, 64, 65, 128})))
+		a.Add(a, big.NewInt(int64(g.r.Intn(3))))
+		g.stats.Mut("amount-wide")
+		return a.String()
 	}
 	switch g.r.Intn(12) {
 	case 0:
